@@ -20,7 +20,7 @@ CONFIG = '''taint-tracking-problems:
 
 GO_FORMS = ["named", "lit_cap", "lit_nocap", "method_ptr", "method_val", "method_value", "method_expr",
             "funcvar", "funcfield", "funcparam", "iface", "generic", "generic_launch", "generic_launch"]
-DEFER_FORMS = ["none", "none", "rec_lit", "rec_named", "norec", "rec_nested"]
+DEFER_FORMS = ["none", "none", "rec_lit", "rec_named", "norec", "rec_nested", "rec_helper", "rec_method"]
 PARAMS = "a *S, b *S, c chan string, cs chan *S, done chan bool"
 ARGN = 5
 
@@ -30,7 +30,7 @@ class Worker:
         self.k, self.form, self.dform = k, form, dform
         self.go_line = 0
         self.entry = ""      # name of the entry function as the may-panic report prints it (RelString(nil))
-        self.recovers = dform in ("rec_lit", "rec_named")
+        self.recovers = dform in ("rec_lit", "rec_named", "rec_method")
         self.fault_lines = []
         self.first_line = self.last_line = 0
         self.twin_entry = ""
@@ -343,6 +343,12 @@ class Gen:
             self.emit('defer func() { G1 = "d" }()', 'defer func() { simb.Acc(%d, &G1, 1); G1 = "d" }()' % self.L())
         elif d == "rec_nested":
             self.emit("defer func() { func() { recover() }() }()")
+        elif d == "rec_helper":
+            # recover is called one call level below the deferred function: it does NOT stop the panic
+            self.emit("defer func() { rec() }()")
+        elif d == "rec_method":
+            # the deferred function is a method that calls recover directly: it DOES stop the panic
+            self.emit("defer GR.rec()")
         n = self.stmts
         cut = self.rng.below(n + 1)
         self.body(env, cut)
@@ -394,6 +400,9 @@ class Gen:
         e("func fault(n int) bool { return false }")
         e("func cond(i int) bool  { return i%2 == 0 }")
         e("func rec()             { recover() }")
+        e("type Rc struct{}")
+        e("func (Rc) rec()        { recover() }")
+        e("var GR Rc")
         ln = self.L()
         e("func hset(a *S, x string) { a.g = x }", "func hset(a *S, x string) { simb.Acc(%d, a, 1); a.g = x }" % ln)
         ln = self.L()
@@ -838,5 +847,177 @@ def focused(seed, idx):
 def generate_mixed(seed, idx, **kw):
     """Swarm over program styles: every second program is a focused one."""
     if idx % 2 == 1:
-        return focused(seed, idx // 2)
+        k = idx // 2
+        if k % 6 == 4:
+            return focused_select(seed, k)
+        if k % 6 == 5:
+            return focused_closure_handoff(seed, k)
+        return focused(seed, k)
     return generate(seed, idx, **kw)
+
+
+def _mini_prelude(g, with_iface=False):
+    e = g.emit
+    e("package main", 'package main; import ("simrt"; "simrt/simb")')
+    e("")
+    e("type S struct {")
+    e("\tf string")
+    e("\tg string")
+    e("\tn *S")
+    e("}")
+    e("")
+    e("func newS() *S { s := &S{}; s.n = s; return s }")
+    e('func source1() string { return "src" }')
+    e("func sink1(x any)      {}")
+    e("")
+
+
+def focused_select(seed, idx):
+    """A goroutine receives through a select with two receive cases: an untracked element type (string/int/bool)
+    listed before or after a pointer channel; what it receives stays shared with main."""
+    rng = Rng(seed * 7741 + idx * 53 + 3)
+    g = Gen(rng, nworkers=1, forms=["named"], dforms=["none"], stmts=1, faults=False, use_globals=False)
+    e = g.emit
+    ctl_type = rng.pick(["string", "int", "bool"])
+    ptr_first = rng.chance(40)
+    worker_writes = rng.chance(50)
+    send_ctl_too = rng.chance(30)
+    g.features |= {"focused", "pattern:select-recv", "select:" + ("ptr-first" if ptr_first else "untracked-first"),
+                   "writer:" + ("goroutine" if worker_writes else "main")}
+    _mini_prelude(g)
+    w = g.workers[0]
+    e("func w0(ctl chan %s, jobs chan *S, done chan bool) {" % ctl_type)
+    ln = g.L()
+    e("\tdefer func() { done <- true }()", "\tdefer func() { simrt.Send(%d, done, true) }()" % ln)
+    ln = g.L()
+    if ptr_first:
+        e("\tselect {", "\tswitch i_, vj_, vc_ := simrt.SelectRecv2(%d, jobs, ctl); i_ {" % ln)
+        cases = [("j", "jobs", "vj_", "vc_", True), ("c", "ctl", "vc_", "vj_", False)]
+    else:
+        e("\tselect {", "\tswitch i_, vc_, vj_ := simrt.SelectRecv2(%d, ctl, jobs); i_ {" % ln)
+        cases = [("c", "ctl", "vc_", "vj_", False), ("j", "jobs", "vj_", "vc_", True)]
+    for ci, (v, ch, mine, other, isptr) in enumerate(cases):
+        e("\tcase %s := <-%s:" % (v, ch), "\tcase %d: %s := %s; _ = %s" % (ci, v, mine, other))
+        g.indent = 2
+        if isptr:
+            if worker_writes:
+                ln = g.L()
+                g.stmt("j.f = source1()", "j.f = simb.Src(%d)" % ln, accs=[("j", 1)])
+                g.source_lines.append(ln)
+            else:
+                ln = g.L()
+                g.stmt("sink1(j.f)", "simb.Sink(%d, j.f)" % ln, accs=[("j", 0)])
+                g.sink_lines.append(ln)
+        else:
+            g.stmt("_ = c")
+        g.indent = 0
+    e("\t}")
+    e("}")
+    e("")
+    e("func main() {", "func pmain() {")
+    g.indent = 1
+    e("done := make(chan bool, 2)")
+    e("ctl := make(chan %s, 1)" % ctl_type)
+    e("jobs := make(chan *S, 1)")
+    e("a := newS()")
+    w.go_line = g.L()
+    e("go w0(ctl, jobs, done)", "simrt.Go3(%d, w0, ctl, jobs, done)" % w.go_line)
+    ln = g.L()
+    e("jobs <- a", "simrt.Send(%d, jobs, a)" % ln)
+    if send_ctl_too:
+        ln = g.L()
+        val = {"string": '"c"', "int": "1", "bool": "true"}[ctl_type]
+        e("ctl <- %s" % val, "simrt.Send(%d, ctl, %s)" % (ln, val))
+    if worker_writes:
+        ln = g.L()
+        g.stmt("sink1(a.f)", "simb.Sink(%d, a.f)" % ln, accs=[("a", 0)])
+        g.sink_lines.append(ln)
+    else:
+        ln = g.L()
+        g.stmt("a.f = source1()", "a.f = simb.Src(%d)" % ln, accs=[("a", 1)])
+        g.source_lines.append(ln)
+    ln = g.L()
+    e("<-done", "simrt.Recv(%d, done)" % ln)
+    ln = g.L()
+    g.stmt("sink1(a)", "simb.Sink(%d, a)" % ln)
+    g.sink_lines.append(ln)
+    g.indent = 0
+    e("}")
+    g.extra = ["", "func main() { simb.Main(pmain) }", "var _ = simrt.Yield", "var _ = simb.Acc", ""]
+    w.entry = "w0"
+    return {"name": "cselect-%d-%d" % (seed, idx), "clean": g.clean(), "exec": g.executed(), "meta": g.meta()}
+
+
+def focused_closure_handoff(seed, idx):
+    """Source data captured by a closure; the closure value (not the data) crosses to a goroutine that already holds
+    the channel (or the shared object) and calls it; the closure body reaches a sink or stores into shared memory."""
+    rng = Rng(seed * 9973 + idx * 71 + 5)
+    g = Gen(rng, nworkers=1, forms=["named"], dforms=["none"], stmts=1, faults=False, use_globals=False)
+    e = g.emit
+    via = rng.pick(["chan", "chan", "field"])
+    body = rng.pick(["sink", "sink", "store"])
+    g.features |= {"focused", "pattern:closure-handoff", "via:" + via, "closure-body:" + body}
+    _mini_prelude(g)
+    e("type Box struct{ fn func() }")
+    e("")
+    w = g.workers[0]
+    if via == "chan":
+        e("func w0(jobs chan func(), a *S, done chan bool) {")
+        ln = g.L()
+        e("\tdefer func() { done <- true }()", "\tdefer func() { simrt.Send(%d, done, true) }()" % ln)
+        ln = g.L()
+        e("\tf := <-jobs", "\tf := simrt.Recv(%d, jobs)" % ln)
+        ln = g.L()
+        e("\tf()", "\tsimrt.Yield(%d); f()" % ln)
+    else:
+        e("func w0(bx *Box, a *S, done chan bool) {")
+        ln = g.L()
+        e("\tdefer func() { done <- true }()", "\tdefer func() { simrt.Send(%d, done, true) }()" % ln)
+        ln = g.L()
+        e("\tif bx.fn != nil {", "\tsimrt.Yield(%d); simb.Acc(%d, bx, 0); if bx.fn != nil {" % (ln, ln))
+        e("\t\tbx.fn()")
+        e("\t}")
+    if body == "store":
+        ln = g.L()
+        g.indent = 1
+        g.stmt("sink1(a.f)", "simb.Sink(%d, a.f)" % ln, accs=[("a", 0)])
+        g.sink_lines.append(ln)
+        g.indent = 0
+    e("}")
+    e("")
+    e("func main() {", "func pmain() {")
+    g.indent = 1
+    e("done := make(chan bool, 2)")
+    e("a := newS()")
+    if via == "chan":
+        e("jobs := make(chan func(), 1)")
+        w.go_line = g.L()
+        e("go w0(jobs, a, done)", "simrt.Go3(%d, w0, jobs, a, done)" % w.go_line)
+    else:
+        e("bx := &Box{}")
+        w.go_line = g.L()
+        e("go w0(bx, a, done)", "simrt.Go3(%d, w0, bx, a, done)" % w.go_line)
+    ln = g.L()
+    g.stmt("x := source1()", "x := simb.Src(%d)" % ln)
+    g.source_lines.append(ln)
+    ln = g.L()
+    if body == "sink":
+        e("fn := func() { sink1(x) }", "fn := func() { simb.Sink(%d, x) }" % ln)
+        g.sink_lines.append(ln)
+    else:
+        e("fn := func() { a.f = x }", "fn := func() { simb.Acc(%d, a, 1); a.f = x }" % ln)
+    ln = g.L()
+    if via == "chan":
+        e("jobs <- fn", "simrt.Send(%d, jobs, fn)" % ln)
+    else:
+        g.stmt("bx.fn = fn", accs=[("bx", 1)])
+    ln = g.L()
+    e("<-done", "simrt.Recv(%d, done)" % ln)
+    ln = g.L()
+    g.stmt("sink1(a)", "simb.Sink(%d, a)" % ln)
+    g.sink_lines.append(ln)
+    g.indent = 0
+    e("}")
+    g.extra = ["", "func main() { simb.Main(pmain) }", "var _ = simrt.Yield", "var _ = simb.Acc", ""]
+    w.entry = "w0"
+    return {"name": "chandoff-%d-%d" % (seed, idx), "clean": g.clean(), "exec": g.executed(), "meta": g.meta()}
